@@ -2054,6 +2054,14 @@ fn c11_damage(r: &Rng, progs: &[Prog], pat: &[u8], pmt: &[u8], p0: &Prog, target
         // CRC_32 field and length are those of the intact section); dmg 6: one bit flipped outside
         // the version and the CRC_32 field (seeded change C11-r10m2: a "seen this failing CRC
         // before" cache keyed on length + CRC_32 field)
+        // dmg 7: one bit of the section_syntax_indicator / the two high bits of section_length flipped:
+        // the copy is refused before the de-duplication layer sees it (syntax bit clear, or a length
+        // above 1021), so the intact copy that follows is applied even with the SAME version
+        // (seeded change C11-r12m1: section_length read as 10 bits)
+        if dmg == 7 { bad[1] ^= [0x80u8, 0x08, 0x04][r.below(3) as usize]; }
+        // dmg 8: one bit of table_id flipped (the first byte; dmg 0 starts at the fourth): a copy that
+        // claims to be another table must not keep later intact copies out (seeded change C11-r12m2)
+        if dmg == 8 { bad[0] ^= 1 << r.below(8); }
         if dmg == 5 { bad[5] ^= 2u8 << r.below(5); }
         if dmg == 6 { let n = bad.len(); let mut b = 8 + r.below((n - 12) as u64) as usize; if b >= n - 4 { b = 8; } bad[b] ^= 1 << r.below(8); }
         if dmg == 0 { let b = 24 + r.below((bad.len() * 8 - 24) as u64) as usize; bad[b / 8] ^= 0x80 >> (b % 8); if b / 8 == 5 && (b % 8) >= 2 && (b % 8) <= 6 { bad[5] ^= 0x80 >> (b % 8); let k = 8 % bad.len(); bad[k] ^= 1; } }
@@ -2081,7 +2089,7 @@ fn c11_damage(r: &Rng, progs: &[Prog], pat: &[u8], pmt: &[u8], p0: &Prog, target
         let l = s2.len(); s2.truncate(l - 4); let s2 = with_crc(s2);
         all.extend(m.section(pid, &s2, &plan_for(r, &s2)));
     }
-    let intact = if dmg >= 5 { sec.clone() } else { intact };
+    let intact = if dmg >= 5 && dmg != 8 { sec.clone() } else { intact };
     for k in 0..(1 + r.below(3)) {
         // the intact copy is sometimes forced into a single packet / several packets
         let plan = if dmg == 4 && k == 0 && intact.len() <= 183 { simple_plan(intact.len()) } else { plan_for(r, &intact) };
@@ -2102,7 +2110,7 @@ fn gen_c11(tier: &str, r: &Rng, o: &mut Out<'_>) {
         let pmt = pmt_of(&p0);
         for &target_pat in [true, false].iter() {
             for &same_version in [true, false].iter() {
-                for dmg in 0..5 {
+                for dmg in [0usize, 1, 2, 3, 4, 8] {
                     let all = c11_damage(r, &progs, &pat, &pmt, &p0, target_pat, same_version, dmg);
                     let body = format!("demux b0t0 {}", hex(&concat(&all)));
                     // same-version-as-damaged-start is the recorded finding F2; everything else is decisive
@@ -2110,7 +2118,7 @@ fn gen_c11(tier: &str, r: &Rng, o: &mut Out<'_>) {
                 }
                 // a damaged copy that READS as another version / vA damaged, vB, vA: the intact copy
                 // differs in version from the last recorded start, so it is applied (decisive)
-                for dmg in 5..7 {
+                for dmg in 5..8 {
                     let all = c11_damage(r, &progs, &pat, &pmt, &p0, target_pat, same_version, dmg);
                     o.d(&format!("demux b0t0 {}", hex(&concat(&all))));
                 }
